@@ -313,6 +313,27 @@ def _collect_pair(a, b):
             return None
     name = a.targets[0].id
     v = a.value
+    if (isinstance(v, ast.Dict) and not v.keys) or (isinstance(v, ast.Call) and isinstance(v.func, ast.Name) and v.func.id == "dict" and not v.args and not v.keywords):
+        # `d = {}` followed by `for T in IT: [if c:] d[K] = V` is `d = {K: V for T in IT if c}`
+        inner = b.body[0]
+        conds = []
+        while isinstance(inner, ast.If) and not inner.orelse and len(inner.body) == 1:
+            conds.append(inner.test)
+            inner = inner.body[0]
+        if not (isinstance(inner, ast.Assign) and len(inner.targets) == 1 and isinstance(inner.targets[0], ast.Subscript) and isinstance(inner.targets[0].value, ast.Name)
+                and inner.targets[0].value.id == name):
+            return None
+        k_, v_ = inner.targets[0].slice, inner.value
+        if getattr(b, "_temporaries", None) and not all(_pure_expr(x) for x in [k_, v_] + conds):
+            return None
+        for part in [k_, v_, b.iter, b.target] + conds:
+            if any(isinstance(x, ast.Name) and x.id == name for x in ast.walk(part)) or any(isinstance(x, (ast.Yield, ast.YieldFrom, ast.Await, ast.NamedExpr)) for x in ast.walk(part)):
+                return None
+        comp = ast.DictComp(key=k_, value=v_, generators=[ast.comprehension(target=b.target, iter=b.iter, ifs=conds, is_async=0)])
+        new = ast.Assign(targets=[ast.Name(id=name, ctx=ast.Store())], value=comp)
+        ast.copy_location(new, b)
+        ast.fix_missing_locations(new)
+        return new
     if isinstance(v, ast.List) and not v.elts:
         kind = "list"
     elif isinstance(v, ast.Call) and isinstance(v.func, ast.Name) and v.func.id in ("list", "bytearray") and not v.args and not v.keywords:
